@@ -52,7 +52,7 @@ SPECS = [
     ("distanceXY", {"axis": "axis", "onesite": True}),
     ("angle", {}), ("angle", {"onesite": True}),
     ("dihedral", {}), ("dihedral", {"onesite": True}),
-    ("gyration", {}), ("rmsd", {}), ("eigenvector", {"fit": "self"}), ("eigenvector", {"fit": "self", "normalize": True}),
+    ("gyration", {}), ("rmsd", {}), ("rmsd", {"perm": True}), ("eigenvector", {"fit": "self"}), ("eigenvector", {"fit": "self", "normalize": True}),
 ]
 # order of the component variants inside a violation key (so that a trailing-* pattern can name the offending component)
 PRIORITY = ["eigenvector", "rmsd", "gyration", "angle", "dihedral", "distanceXY", "distanceZ", "distance"]
@@ -69,6 +69,8 @@ def variant(ctype, o):
         v += "/dummy"
     if o.get("normalize"):
         v = "normalized_" + v
+    if o.get("perm"):
+        v += "/perm"
     return v
 
 
@@ -94,6 +96,15 @@ def make_comp(rng, sysm, pool, ctype, o):
         if normalize:
             first, rest = c["text"].split("\n", 1)
             c["text"] = first + "\n    normalizeVector on\n" + rest
+    if ctype == "rmsd" and oo.get("perm"):
+        # symmetry-adapted RMSD: the listed permutation (first two atoms exchanged) is the closest image, because the first two
+        # reference positions are exchanged with respect to the current geometry
+        g = c["atoms"]
+        ref = list(c["refpos"])
+        ref[0], ref[1] = ref[1], ref[0]
+        c["text"] = re.sub(r"    refPositions [^\n]*\n", "    refPositions %s\n    atomPermutation %s\n" % (
+            " ".join(corpus.vec_str(p_) for p_ in ref), " ".join(str(a) for a in [g[1], g[0]] + g[2:])), c["text"])
+        assert "atomPermutation" in c["text"]
     c["ctype"] = ctype
     c["variant"] = variant(ctype, o)
     c["onesite"] = onesite
